@@ -353,8 +353,14 @@ def check_tostring(ctx, rep, table):
         try:
             got = ev.call(f, [v])
         except (OutsideFragment, Abort) as e:
-            rep.unknown("N4", f.decl, f, "toString(%s)" % n, "not evaluable: %s" % e)
-            continue
+            # not an enum-dispatch function (e.g. a lookup table indexed by the enumerator's value): fold it concretely
+            try:
+                from ..consteval import ConstEval, Unsupported, Thrown, AssertFailed
+                ce = ConstEval(prog)
+                got = ce._call(f, [("enum", CO, n, v.value if hasattr(v, "value") else None)], None)
+            except (Unsupported, Thrown, AssertFailed) as e2:
+                rep.unknown("N4", f.decl, f, "toString(%s)" % n, "not evaluable: %s / %s" % (e, e2))
+                continue
         ok = got == ("str", n)
         inpy = (n in bound) if bound else True
         if ok and inpy:
@@ -506,6 +512,18 @@ def check_export(ctx, rep):
                 rep.violation("N5", items[i][2], f, "'%s' followed by %s" % (k, pretty(nxt)), "expected toString(rows()[i].orientation)",
                               key="exportIspdRows|%s not the row orientation" % k)
         else:
+            # the value written after a geometric key must be a quantity of the row being written (not a loop-invariant one)
+            if k in ("coordinate", "height", "subroworigin", "numsites"):
+                nxt = expand_locals(ctx, f, items[i + 1][0]) if i + 1 < len(items) else ("none",)
+                loops_ = [for_loop_info(x_) for x_ in walk(f.body) if x_.get("kind") == "ForStmt"]
+                lv = [l_["var"][:2] for l_ in loops_ if l_]
+                per_row = any(t[0] == "var" and t[:2] in lv for t in subterms(nxt)) or any(
+                    t[0] == "elem" for t in subterms(nxt))
+                if nxt[0] != "lit" and not per_row:
+                    rep.violation("N5", items[i][2], f, "'%s' is followed by %s, which does not depend on the row being written" % (k, pretty(nxt)[:60]),
+                                  "every row is written with the same value: rows of different extent are not reproduced",
+                                  key="exportIspdRows|%s not per row" % k)
+                    continue
             rep.holds("N5", items[i][2], f, "key '%s' written" % k)
     # ---- nets: raw offsets relative to the raw centre; reader: int(round(0.5 * size + v))
     g = prog.func1(CQ + "exportIspdNets")
@@ -551,7 +569,18 @@ def check_export(ctx, rep):
     wrote_w = any(c[0] == "index" and c[1][0] == "field" and c[1][1] == CQ + "Circuit::cellWidth_" for c, _a, _x in its)
     wrote_h = any(c[0] == "index" and c[1][0] == "field" and c[1][1] == CQ + "Circuit::cellHeight_" for c, _a, _x in its)
     placed = [c for c, _a, _x in its if c[0] == "call" and c[1] in (CQ + "Circuit::placedWidth", CQ + "Circuit::placedHeight")]
-    if wrote_w and wrote_h and not placed:
+    cond_sizes = []
+    for c, a, x in its:
+        if c[0] == "index" and c[1][0] == "field" and c[1][1] in (CQ + "Circuit::cellWidth_", CQ + "Circuit::cellHeight_"):
+            gs = [(gc, val) for gc, val, ast, _as in (ctx.guards(h, x) or []) if isinstance(val, bool) and not _is_loop_cond(ast)]
+            if gs:
+                cond_sizes.append((x, gs))
+    if cond_sizes:
+        x, gs = cond_sizes[0]
+        rep.violation("XF", x, h, ".nodes writes a cell's size only under %s" % " and ".join(pretty(g_)[:50] for g_, _v in gs),
+                      "a record without dimensions is read back as a 0 x 0 cell: cells for which the condition fails lose their size "
+                      "(and their pins move, since offsets are stored relative to the centre)", key="exportIspdNodes|sizes conditional")
+    elif wrote_w and wrote_h and not placed:
         rep.holds("XF", h.decl, h, ".nodes writes raw cellWidth_/cellHeight_")
     else:
         rep.violation("XF", h.decl, h, ".nodes does not write the raw cell sizes", "the reader stores them into cell_width/cell_height (raw)",
